@@ -389,10 +389,19 @@ impl Check for C13 {
         for _ in 0..d.weighted(&[3, 4, 2]) {
             pool.push((failing(d, &base), "failing".into()));
         }
-        let n = 3 + d.below(8);
+        let long = d.chance(5);
+        if long {
+            // a long sequence over a larger pool (a cache with a size limit or an eviction policy
+            // would only show beyond some number of entries)
+            for _ in 0..10 + d.below(60) {
+                let (v, kind) = variant(d, &base, &p);
+                pool.push((v, kind.into()));
+            }
+        }
+        let n = if long { 40 + d.below(160) } else { 3 + d.below(8) };
         let seq: Vec<usize> = (0..n).map(|_| d.below(pool.len())).collect();
         let mut inputs = Vec::new();
-        for (modes, kind) in &pool {
+        for (modes, kind) in pool.iter().take(8) {
             if kind == "failing" {
                 continue;
             }
@@ -501,6 +510,7 @@ impl Check for C13 {
                 st.count("cache_hits_expected");
             }
             st.count("builds");
+            st.flag("sequences_longer_than_64_builds", step == 64);
             match (a, b) {
                 (Err(_), Err(_)) => {
                     st.count("failing_builds");
